@@ -1,6 +1,7 @@
 package main
 
 import (
+	"hash/crc32"
 	"fmt"
 	"go/token"
 	"go/types"
@@ -314,6 +315,15 @@ func (p *Path) ufOverBytes(name string, resW int, extra []*Term, s seq) *Term {
 	return res
 }
 
+func allConst(ts []*Term) bool {
+	for _, t := range ts {
+		if !t.IsConst() {
+			return false
+		}
+	}
+	return true
+}
+
 type ufApp struct {
 	args []*Term
 	res  *Term
@@ -330,6 +340,9 @@ func (p *Path) idealChecksumAxioms(sym string, args []*Term, res *Term) {
 	for _, o := range apps {
 		if o.res == res {
 			continue
+		}
+		if allConst(args) && allConst(o.args) {
+			continue // both pinned to their real checksums
 		}
 		same := c.Bool(true)
 		for i := range args {
@@ -747,15 +760,49 @@ func addMiscIntrinsics(m map[string]intrinsic) {
 	}
 
 	// checksums as uninterpreted functions
+	// crc32: an uninterpreted function of (seed, bytes); when the polynomial is known and seed and bytes are all
+	// constants the REAL checksum is computed and the uninterpreted application is pinned to it (so that symbolic
+	// applications that turn out equal in a model stay consistent).
+	crcUpdate := func(p *Path, seed *Term, poly uint32, havePoly bool, s seq) *Term {
+		res := p.ufOverBytes("crc32u", 32, []*Term{seed}, s)
+		if !havePoly || !seed.IsConst() {
+			return res
+		}
+		n := p.concLen(s.Len, "crc input length")
+		buf := make([]byte, n)
+		for i := 0; i < n; i++ {
+			t := p.seqAt(s, p.ctx.BV(64, uint64(i)))
+			if !t.IsConst() {
+				return res
+			}
+			buf[i] = byte(t.Val)
+		}
+		v := crc32.Update(uint32(seed.Val), crc32.MakeTable(poly), buf)
+		k := p.ctx.BV(32, uint64(v))
+		p.addPC(p.ctx.Eq(res, k))
+		return k
+	}
+	polyOf := func(v Value) (uint32, bool) {
+		if pt, ok := v.(Ptr); ok && pt.Kind == PCell {
+			if sc, ok := pt.Cell.(*ScalarCell); ok {
+				if iv, ok := sc.V.(IntV); ok && iv.T.IsConst() {
+					return uint32(iv.T.Val), true
+				}
+			}
+		}
+		return 0, false
+	}
 	m["hash/crc32.Update"] = func(p *Path, fn *ssa.Function, a []Value, pos token.Pos, caller *ssa.Function) []Value {
-		seed := p.intOf(a[0]).T
-		return []Value{IntV{T: p.ufOverBytes("crc32u", 32, []*Term{seed}, p.seqOf(a[2]))}}
+		poly, ok := polyOf(a[1])
+		return []Value{IntV{T: crcUpdate(p, p.intOf(a[0]).T, poly, ok, p.seqOf(a[2]))}}
 	}
 	m["hash/crc32.Checksum"] = func(p *Path, fn *ssa.Function, a []Value, pos token.Pos, caller *ssa.Function) []Value {
-		return []Value{IntV{T: p.ufOverBytes("crc32u", 32, []*Term{p.ctx.BV(32, 0)}, p.seqOf(a[0]))}}
+		poly, ok := polyOf(a[1])
+		return []Value{IntV{T: crcUpdate(p, p.ctx.BV(32, 0), poly, ok, p.seqOf(a[0]))}}
 	}
 	m["hash/crc32.MakeTable"] = func(p *Path, fn *ssa.Function, a []Value, pos token.Pos, caller *ssa.Function) []Value {
-		return []Value{Ptr{Kind: PNil}}
+		// the table is never read (Update/Checksum are intrinsics): a cell that remembers the polynomial
+		return []Value{Ptr{Kind: PCell, Cell: &ScalarCell{V: IntV{T: p.intOf(a[0]).T}}}}
 	}
 	m["hash/crc32.ChecksumIEEE"] = func(p *Path, fn *ssa.Function, a []Value, pos token.Pos, caller *ssa.Function) []Value {
 		return []Value{IntV{T: p.ufOverBytes("crc32ieee", 32, nil, p.seqOf(a[0]))}}
